@@ -90,3 +90,24 @@ impl vstd::std_specs::convert::FromSpecImpl<Errno> for Error {
     open spec fn obeys_from_spec() -> bool { true }
     open spec fn from_spec(e: Errno) -> Error { Error::SystemError(e) }
 }
+// ---- wait.rs Command::await_jobs ----
+pub struct Command { pub verif_opaque: u8 }
+/// `status::wait_while_running(env, &mut status::job_status(index, job_control))` (k/waitstatus has job_status, bounded) and, with
+/// None, `status::wait_while_running(env, &mut status::any_job_is_running(job_control))`: waits until the job (all jobs) no longer
+/// runs and answers its status
+#[verifier::external_body]
+pub fn verif_wait_while_running<S>(env: &mut Env<S>, what: Option<usize>) -> (r: std::result::Result<ExitStatus, Error>)
+    ensures final(env).log@ == old(env).log@.push(Ev::WaitedFor { what, answer: r })
+{ unimplemented!() }
+/// taking the first operand off (what `for index in indexes` does on every round; ASSUMED)
+#[verifier::external_body]
+pub fn verif_next_index(rest: &mut Vec<Option<usize>>) -> (r: Option<Option<usize>>)
+    ensures old(rest)@.len() == 0 ==> r is None && final(rest)@ == old(rest)@,
+        old(rest)@.len() > 0 ==> r == Some(old(rest)@[0]) && final(rest)@ == old(rest)@.subrange(1, old(rest)@.len() as int)
+{ unimplemented!() }
+pub enum OptState { On, Off }
+pub use OptState::Off;
+/// the jobs among the operands, in order (those that designate a job)
+pub open spec fn found(ix: Seq<Option<usize>>) -> Seq<usize> decreases ix.len() {
+    if ix.len() == 0 { Seq::empty() } else { let r = found(ix.drop_last()); match ix.last() { Some(i) => r.push(i), None => r } }
+}
